@@ -37,7 +37,7 @@ def worker(args):
             if tw.obs[-1][0] != 'ok':
                 sub.count('twin_view_failed'); return
             expected = tw.obs[-1][1]
-            lost = tw.facts_violated(expected)
+            lost = tw.facts_violated(expected) if not sx.latent_conflict(fixture, hist) else []
             if lost:
                 def still(h):
                     t2 = env.run(h[:-1] + [('view',)], fixture, record_sql=False)
